@@ -524,7 +524,71 @@ func capturedErrLost(f *ssa.Function, e ssa.Value, via []helperStore) string {
 // (the sort comparator idiom).
 func panicIsConverted(f *ssa.Function) bool {
 	par := f.Parent()
-	if par == nil || isGoTarget(f) {
+	if par == nil {
+		// a named function or method: every use in the module is a function / method value created by a function
+		// that defers a recover handler and only hands it to a synchronous call (the comparator as a method value)
+		if curProgram == nil {
+			return false
+		}
+		nOK, nBad := 0, 0
+		for _, g := range curProgram.ModFuncs {
+			allInstrs(g, func(_ *ssa.BasicBlock, in ssa.Instruction) {
+				if ci, isCall := in.(ssa.CallInstruction); isCall && ci.Common().StaticCallee() == f {
+					if g.Synthetic != "" && strings.Contains(g.Synthetic, "bound") {
+						return // the bound-method wrapper itself
+					}
+					nBad++
+					return
+				}
+				var val ssa.Value
+				switch x := in.(type) {
+				case *ssa.MakeClosure:
+					if w, isFn := x.Fn.(*ssa.Function); isFn && w.Synthetic != "" && w.Object() == f.Object() && f.Object() != nil {
+						val = x
+					}
+				default:
+					for _, op := range in.Operands(nil) {
+						if op != nil && *op == ssa.Value(f) {
+							nBad++ // taken as a plain function value: not followed
+						}
+					}
+				}
+				if val == nil {
+					return
+				}
+				if _, rec := deferredRecover(g); !rec {
+					nBad++
+					return
+				}
+				refs := val.Referrers()
+				if refs == nil {
+					nBad++
+					return
+				}
+				for _, r := range *refs {
+					switch u := r.(type) {
+					case *ssa.Call:
+						used := false
+						for _, a := range u.Call.Args {
+							if a == val {
+								used = true
+							}
+						}
+						if used {
+							nOK++
+						} else {
+							nBad++
+						}
+					case *ssa.DebugRef:
+					default:
+						nBad++
+					}
+				}
+			})
+		}
+		return nOK > 0 && nBad == 0
+	}
+	if isGoTarget(f) {
 		return false
 	}
 	_, ok := deferredRecover(par)
